@@ -358,12 +358,26 @@ pub fn take_panic() -> (String, String) {
     LAST_PANIC.with(|p| p.borrow_mut().take()).unwrap_or(("<unknown>".into(), "<unknown>".into()))
 }
 
+thread_local! {
+    static THREAD_LOG_MAX: std::cell::Cell<log::LevelFilter> = const { std::cell::Cell::new(log::LevelFilter::Trace) };
+}
+
+/// Per-thread level filter of the capturing logger (the process-wide maximum stays where `install_logger` put it): a
+/// thread set to Debug behaves like a deployment whose logger is configured at Debug — `log_enabled!(Trace)` is false
+/// there and trace records are neither formatted nor kept.
+pub fn set_thread_log_max(l: log::LevelFilter) {
+    THREAD_LOG_MAX.with(|c| c.set(l));
+}
+
 struct CapLogger;
 impl log::Log for CapLogger {
-    fn enabled(&self, _m: &log::Metadata) -> bool {
-        true
+    fn enabled(&self, m: &log::Metadata) -> bool {
+        m.level() <= THREAD_LOG_MAX.with(|c| c.get())
     }
     fn log(&self, r: &log::Record) {
+        if r.level() > THREAD_LOG_MAX.with(|c| c.get()) {
+            return;
+        }
         let on = CAPTURE_LOGS.with(|c| *c.borrow());
         if on {
             LOGS.with(|l| l.borrow_mut().push((r.level(), r.target().to_string(), format!("{}", r.args()))));
@@ -429,6 +443,25 @@ pub struct ErrOut {
     pub msg: String,
     pub debug: String,
     pub has_source: bool,
+    /// every other rendering a caller could produce from the error value: alternate Display / Debug, hex-flavoured
+    /// Debug, width / precision, and the same for each error of the `source()` chain
+    pub alt: String,
+}
+
+/// See `ErrOut::alt`.
+pub fn render_error_alt(e: &(dyn std::error::Error + 'static)) -> String {
+    let mut out = format!("{:#} | {:#?} | {:x?} | {:#x?} | {:X?} | {:80} | {:.8}", e, e, e, e, e, e, e);
+    let mut cur = e.source();
+    let mut depth = 0;
+    while let Some(s) = cur {
+        out.push_str(&format!(" | source[{}]: {} | {:?} | {:#?} | {:x?}", depth, s, s, s, s));
+        cur = s.source();
+        depth += 1;
+        if depth > 8 {
+            break;
+        }
+    }
+    out
 }
 
 #[derive(Clone, Debug)]
@@ -520,6 +553,7 @@ pub fn describe_error(e: BoxError) -> ErrOut {
                 msg: se.to_string(),
                 debug: format!("{:?}", se),
                 has_source,
+                alt: render_error_alt(&*se),
             }
         }
         Err(other) => ErrOut {
@@ -530,6 +564,7 @@ pub fn describe_error(e: BoxError) -> ErrOut {
             msg: other.to_string(),
             debug: format!("{:?}", other),
             has_source: false,
+            alt: render_error_alt(&*other),
         },
     }
 }
